@@ -329,6 +329,81 @@ def mutate_doc(rng, doc):
     return doc
 
 
+KEY_POOLS = {
+    "rid": ["ri.a.b.c.d", "ri.a.b.c.D", "ri.a..c.d", "ri.a.b.c.d.e", "ri.a-b.b.c.d", "ri.a.b.c.-", "ri.a.b.c._", "ri.b.0.c.d", "ri.a.b.c.d0", "ri.a.b.c.0"],
+    "tok": ["a", "b", "A", "a=", "a==", "ab", "a/b", "a+b", "a-b", "a.b", "a_b", "a~b", "0", "Z"],
+    "time": ["2017-01-02T03:04:05Z", "2017-01-02T03:04:05.000000001Z", "2017-01-02T03:04:04.999999999Z", "1970-01-01T00:00:00Z", "1969-12-31T23:59:59Z",
+             "9999-12-31T23:59:59Z", "0001-01-01T00:00:00Z", "2017-01-02T03:04:05.100Z", "2017-01-02T03:04:05.010Z"],
+    "long": [0, -1, 1, 9007199254740991, -9007199254740991, 10, 9, -10, -9, 100, 99],
+    "bin": ["", "AA==", "AQ==", "AAA=", "AAE=", "/w==", "//8=", "AQID", "gA==", "fw=="],
+    "str": ["", "a", "A", "b", "ab", "a b", "é", "z", "~", " "],
+    "int": [0, -1, 1, 2147483647, -2147483648, 10, 9, -10, -9],
+    "uuid": ["00000000-0000-0000-0000-000000000000", "ffffffff-ffff-ffff-ffff-ffffffffffff", "6ba7b810-9dad-11d1-80b4-00c04fd430c8",
+             "6ba7b810-9dad-11d1-80b4-00c04fd430c9", "7ba7b810-9dad-11d1-80b4-00c04fd430c8", "00000000-0000-0000-0000-000000000001"],
+    "bool": [True, False],
+    "enum": ["SHA_256", "HTTP_1_1", "A", "X9", "V1_0"],
+}
+KEY_FIELDS = {"mr": ("map", "rid", "int"), "mt": ("map", "tok", "int"), "md": ("map", "time", "int"), "ml": ("map", "long", "int"), "mb": ("map", "bin", "int"),
+              "ma": ("map", "str", "int"), "mai": ("map", "int", "str"), "mal": ("map", "long", "str"), "sr": ("set", "rid"), "sl": ("set", "long"),
+              "su": ("set", "uuid"), "st": ("set", "time"), "sk": ("set", "tok"), "sb": ("set", "bin"), "sa": ("set", "int"), "sbool": ("set", "bool"),
+              "se": ("set", "enum"), "sar": ("set", "rid")}
+
+
+def key_zoo_stage(out, rng):
+    """maps and sets of generated types over the key types the shape universe does not draw (rid, bearer token, datetime, safelong,
+    binary, aliases, enum): several entries in arbitrary order must all survive a round trip (the collections are ordered by the
+    runtime types' own Ord impls)."""
+    docs, meta = [], {}
+    for k in range(120):
+        doc = {}
+        for f, spec in KEY_FIELDS.items():
+            if rng.chance(1, 3):
+                continue
+            pool = KEY_POOLS[spec[1]]
+            keys = rng.shuffle(pool)[: 1 + rng.below(len(pool))]
+            if spec[0] == "set":
+                doc[f] = keys
+            else:
+                doc[f] = {(json.dumps(x) if not isinstance(x, str) else x): (rng.choice(KEY_POOLS[spec[2]][:5])) for x in keys}
+        for tag in ("a", "b"):
+            cid = "k%d.%s" % (k, tag)
+            docs.append(json.dumps({"id": cid, "cfg": tag, "ty": "KeyZoo", "doc": json.dumps(doc)}))
+            meta[cid] = doc
+    n = 0
+    for obs in vc.ndjson(vc.harness("vgen", ["wire"], stdin="\n".join(docs) + "\n")):
+        doc = meta[obs["id"]]
+        n += 1
+        rep = {"type": "KeyZoo", "doc": doc, "config": obs["id"].split(".")[1]}
+        if obs.get("panic"):
+            out.violation("C02:panic:KeyZoo", "panic while (de)serialising", rep)
+            continue
+        if "server" not in obs:
+            raise vc.ToolError("KeyZoo missing from the zoo (run bin/gen-vgen): %s" % obs)
+        for side in ("server", "client"):
+            o = obs[side]
+            if "ok" not in o:
+                out.violation("C02:rejected-valid:keys", "%s deserializer rejects a valid document of keyed collections: %s" % (side, str(o)[:120]), rep)
+                continue
+            got = json.loads(o["ok"])
+            for f, spec in KEY_FIELDS.items():
+                want = doc.get(f, [] if spec[0] == "set" else {})
+                g = got.get(f, [] if spec[0] == "set" else {})
+                if spec[0] == "set":
+                    same = sorted(json.dumps(x) for x in g) == sorted(json.dumps(x) for x in want)
+                else:
+                    same = g == want
+                if not same:
+                    out.violation("C02:canonical:keys:%s:%s" % (spec[0], spec[1]), "field %s: %d entries in, %d out (%s deserializer): %s -> %s" % (
+                        f, len(want), len(g), side, json.dumps(want)[:90], json.dumps(g)[:90]), rep)
+        if obs.get("smile_roundtrip") is False or obs.get("twice_equal") is False:
+            out.violation("C02:canonical:keys:smile" if obs.get("smile_roundtrip") is False else "C02:canonical:keys:twice",
+                          "keyed collections: %s" % ("the Smile round trip changes the value" if obs.get("smile_roundtrip") is False else "the same document parsed twice gives unequal values"), rep)
+        for how, ok in (obs.get("spellings") or {}).items():
+            if not ok:
+                out.violation("C02:spelling:%s:keys" % how, "keyed collections: verdict or value changes with the spelling (%s)" % how, rep)
+    return n
+
+
 def run(tier, seed):
     out = vc.Outcome(PID, tier, seed, "model_checking")
     rng = vc.Rng(seed)
@@ -432,6 +507,7 @@ def run(tier, seed):
                 out.violation("C02:enum:renamed", "enum value %r re-serialises as %s" % (v, obs[side]["ok"]), rep)
             elif ok and listed and "Unknown" in obs[side].get("debug", ""):
                 out.violation("C02:enum:listed-as-unknown", "listed enum value %r is held as %s" % (v, obs[side]["debug"]), rep)
+    replayed += key_zoo_stage(out, rng)
     # unions: {"type": v, v: payload} in either order, exactly two members, type and member agree (shared with C10)
     import props.c10 as c10
     u = c10.union_enum_replay(PID, tier, seed, out, rng)
